@@ -225,6 +225,16 @@ def tree2parameter(
         raise exceptions.UnknownTreeTypeError(datatype=s.data, atom="Parameter")
 
 
+def _same_definition(first: atoms.Atom, other: atoms.Atom) -> bool:
+    """Check if two atoms with the same name define the same thing,
+    i.e they are of the same kind and have the same value"""
+    if type(first) is not type(other):
+        return False
+    if isinstance(first.value, atoms.Expression) and isinstance(other.value, atoms.Expression):
+        return first.value.tree == other.value.tree
+    return first.value == other.value
+
+
 class TreeToODE(lark.Transformer):
     """Transform a lark tree to an ODE
 
@@ -311,6 +321,11 @@ class TreeToODE(lark.Transformer):
 
         # breakpoint()
 
+        # The first definition of every name. A name can only be defined once: the sets
+        # below silently drop an assignment that is equal (same name and dependencies) to
+        # one already present, and states, parameters and assignments are kept apart
+        definitions: dict[str, atoms.Atom] = {}
+
         comments = []
         for line in s:  # Each line in the block
             if isinstance(line, atoms.Comment):
@@ -322,6 +337,9 @@ class TreeToODE(lark.Transformer):
                 continue
 
             for atom in line:  # State, Parameters or Assignment
+                first = definitions.setdefault(atom.name, atom)
+                if first is not atom and not _same_definition(first, atom):
+                    raise exceptions.DuplicateSymbolError({atom.name})
                 for component in atom.components:
                     components[component][mapping[type(atom)]].add(atom)
 
